@@ -8,7 +8,11 @@
      bw pts         = the model of bowyerWatson on /repo HEAD (super triangle of fix cb0a07c),
      bw_pinned pts  = the same with the super triangle of the pinned snapshot,
      bw_with_sched sched super pts = the same algorithm where the k-th loop over the Go map sees its
-                      content in the order sched k (bw = the identity schedule). *)
+                      content in the order sched k (bw = the identity schedule),
+     bw_state super pts k = the triangulation before insertion k; old_at n k j = "j < k or j is a super
+                      vertex"; sup_in P n p = p strictly inside the clockwise triangle (n, n+1, n+2) of P;
+     edge_closed n T = every directed edge of a triangle of T is an edge of the super triangle
+                      (n, n+1, n+2) or its reverse is an edge of a triangle of T. *)
 From Coq Require Import List ZArith QArith Bool Arith Permutation Lia.
 From PF Require Import Tri.Delaunay Tri.DelaunayProofs Tri.BowyerWatson Tri.BowyerWatsonProofs.
 Import ListNotations.
@@ -91,14 +95,35 @@ Print Assumptions super_refuted.
        (3 <= length pts)%nat -> general_position pts -> bw pts = Some ts ->
        delaunay_spec pts ts.
 
-   Proved: (a) one insertion preserves the empty-circumcircle invariant GIVEN that the cavity is
-   strictly star-shaped from the new point and that the triangulation continues behind every
-   boundary edge beyond which an already inserted point lies; (b) hence the whole run returns
-   clockwise triangles with empty circumcircles GIVEN those two facts at every step (cavities_ok).
-   The missing piece is the geometric lemma that the cavity of a point strictly inside the super
-   triangle always has these two properties (and the non-overlap conjunct).  The binding closes
-   the gap per input: cavities_okb — a decision procedure for cavities_ok, item (c) — is evaluated
-   on every model-compared case, and delaunayb on every output of the Go code. *)
+   Proved, for every input whose points do not all coincide (no size bound):
+   (6a) bw_insert_keeps_empty — one insertion preserves "no inserted point strictly inside a
+        circumcircle" given a strictly star-shaped cavity behind whose boundary the triangulation
+        continues;
+   (6b) cavity_contains_triangle — a point strictly inside a clockwise triangle is strictly inside its
+        circumcircle: the triangle around the new point is bad;
+   (6c) cavity_star_shaped — every boundary edge of the cavity sees the new point strictly on its
+        inner side (in-circle monotonicity along the pencil of circles through the edge: otherwise the
+        neighbour behind the edge would be bad too) and cavity_continues — behind a boundary edge
+        beyond which an old point lies there is a triangle; both from the COMBINATORIAL invariant
+        edge_closed (every directed edge of a triangle is a super-triangle edge or its reverse is an
+        edge of a triangle), clockwise triangles, empty circumcircles and the super triangle
+        containing the points — the latter three are themselves established along the run;
+   (6d) bw_delaunay_partial — hence the whole run returns strictly clockwise triangles over input
+        indices with empty circumcircles (in the sense of the specification: no centre/radius with
+        the corners on and an input point strictly inside the circle), GIVEN ONLY closed_run: edge
+        closure at every step.
+   Missing for the full statement (named precisely):
+   (M1) closed_run itself, i.e. that an insertion preserves edge closure.  insert_keeps_closed_partial
+        below proves the preservation GIVEN edge_unique (no directed edge belongs to two triangles)
+        and boundary_chains (for every boundary edge (u,v) of the cavity some boundary edge starts
+        at v and some ends at u).  Still open: boundary_chains (combinatorial: from edge closure and
+        edge_unique by walking around v) and the preservation of edge_unique (no vertex has two
+        incoming boundary edges, i.e. no pinched cavity — geometric, from non-overlap and (6c));
+   (M2) the non-overlap conjunct of delaunay_spec for the algorithm's output.
+   The binding closes both gaps per input: closed_runb — a decision procedure for closed_run,
+   closed_run_decidable — is evaluated on every model-compared case (so on those inputs the model's
+   output is PROVED clockwise with empty circumcircles), and the certified delaunayb, which includes
+   non-overlap, on every output of the Go code. *)
 Theorem bw_insert_keeps_empty : forall P T i (old : nat -> Prop),
   (forall t, In t T -> gorient (resolve P t) < 0) ->
   (forall t j, In t T -> old j -> in_circb P t (nth j P pzero) = false) ->
@@ -111,14 +136,77 @@ Theorem bw_insert_keeps_empty : forall P T i (old : nat -> Prop),
 Proof. exact insert_keeps_empty. Qed.
 Print Assumptions bw_insert_keeps_empty.
 
-Theorem bw_delaunay_partial : forall super pts ts,
+Theorem cavity_contains_triangle : forall P t p,
+  gorient (resolve P t) < 0 -> Inside (resolve P t) p -> in_circb P t p = true.
+Proof. exact containing_triangle_bad. Qed.
+Print Assumptions cavity_contains_triangle.
+
+Theorem cavity_star_shaped : forall P n T i (old : nat -> Prop),
+  (forall t, In t T -> gorient (resolve P t) < 0) ->
+  (forall t j, In t T -> old j -> in_circb P t (nth j P pzero) = false) ->
+  (forall t a, In t T -> In a (tri_verts t) -> old a) ->
+  edge_closed n T ->
+  sup_in P n (nth i P pzero) ->      (* the new point strictly inside the clockwise super triangle *)
+  forall e, In e (polygon (bad_of P T i)) ->
+    orient (nth (fst e) P pzero) (nth (snd e) P pzero) (nth i P pzero) < 0.
+Proof. exact star_from_closed. Qed.
+Print Assumptions cavity_star_shaped.
+
+Theorem cavity_continues : forall P n T i (old : nat -> Prop),
+  edge_closed n T ->
+  gorient (resolve P (super_tri n)) < 0 ->
+  (forall j, old j -> (j < n)%nat -> sup_in P n (nth j P pzero)) ->
+  (forall j, old j -> (j < n + 3)%nat) ->
+  forall e j, In e (polygon (bad_of P T i)) -> old j ->
+    0 < orient (nth (fst e) P pzero) (nth (snd e) P pzero) (nth j P pzero) ->
+    exists g, In g T /\ In (snd e, fst e) (edges g).
+Proof. exact continues_from_closed. Qed.
+Print Assumptions cavity_continues.
+
+(* the run, given only the combinatorial invariant at every step *)
+Theorem bw_delaunay_partial : forall pts ts,
+  (exists a b, In a pts /\ In b pts /\ (~ fst a == fst b \/ ~ snd a == snd b)) ->
+  (forall k, (k < length pts)%nat -> edge_closed (length pts) (bw_state super_fixed pts k)) ->
+  bw pts = Some ts ->
+  (forall t, In t ts -> idx_ok (length pts) t /\ gorient (resolve pts t) < 0) /\
+  (forall t p, In t ts -> In p pts -> ~ InCircum (resolve pts t) p).
+Proof. exact bw_delaunay_closed. Qed.
+Print Assumptions bw_delaunay_partial.
+
+Theorem closed_run_decidable : forall super pts, closed_runb super pts = true -> closed_run super pts.
+Proof. exact closed_runb_ok. Qed.
+Print Assumptions closed_run_decidable.
+
+(* the two cavity facts at every step follow from the combinatorial invariant (any super triangle
+   that is clockwise and strictly contains the input) *)
+Theorem cavities_from_edge_closure : forall super pts,
+  inside_super super pts -> closed_run super pts -> cavities_ok super pts.
+Proof. exact cavities_from_closed. Qed.
+Print Assumptions cavities_from_edge_closure.
+
+(* (M1) reduced: edge closure survives an insertion given edge_unique and boundary_chains *)
+Theorem insert_keeps_closed_partial : forall P n T i,
+  (forall t, In t T -> gorient (resolve P t) < 0) ->
+  edge_closed n T ->
+  (forall t g e, In t T -> In g T -> In e (edges t) -> In e (edges g) -> t = g) ->
+  (forall t, In t T -> ~ In i (tri_verts t)) ->
+  (forall e, In e (polygon (bad_of P T i)) ->
+     orient (nth (fst e) P pzero) (nth (snd e) P pzero) (nth i P pzero) < 0) ->
+  (forall u v, In (u, v) (polygon (bad_of P T i)) ->
+     (exists x, In (v, x) (polygon (bad_of P T i))) /\ (exists y, In (y, u) (polygon (bad_of P T i)))) ->
+  edge_closed n (insert P T i).
+Proof. exact insert_keeps_closed. Qed.
+Print Assumptions insert_keeps_closed_partial.
+
+(* the earlier, weaker form: the run given the two cavity facts at every step *)
+Theorem bw_delaunay_from_cavities_partial : forall super pts ts,
   gorient (super_gtri super pts) < 0 ->
   cavities_ok super pts ->
   bw_with super pts = Some ts ->
   (forall t, In t ts -> idx_ok (length pts) t /\ gorient (resolve pts t) < 0) /\
   (forall t p, In t ts -> In p pts -> ~ InCircum (resolve pts t) p).
 Proof. exact bw_delaunay_conditional. Qed.
-Print Assumptions bw_delaunay_partial.
+Print Assumptions bw_delaunay_from_cavities_partial.
 
 Theorem cavities_decidable : forall super pts, cavities_okb super pts = true -> cavities_ok super pts.
 Proof. exact cavities_okb_ok. Qed.
@@ -155,15 +243,17 @@ Proof.
 Qed.
 Print Assumptions bw_coverage_refuted.
 
-(* ---- non-vacuity: the hypotheses of 3, 5 and 6 are met by a concrete input and the conclusions
+(* ---- non-vacuity: the hypotheses of 3, 5 and 6 (incl. closed_run) are met by a concrete input and the conclusions
    are what the checker sees *)
 Example c20_example :
   (3 <= length six_points)%nat /\ general_position six_points /\
   gorient (super_gtri super_fixed six_points) < 0 /\ cavities_ok super_fixed six_points /\
+  closed_run super_fixed six_points /\
   option_map (delaunayb six_points) (bw six_points) = Some true /\
   option_map (@length tri) (bw_with_sched (fun _ T => rev T) super_fixed six_points) = Some 6%nat.
 Proof.
   split; [simpl; lia|]. split; [apply general_positionb_ok; vm_compute; reflexivity|].
   split; [vm_compute; reflexivity|]. split; [apply cavities_okb_ok; vm_compute; reflexivity|].
+  split; [apply closed_runb_ok; vm_compute; reflexivity|].
   split; vm_compute; reflexivity.
 Qed.
